@@ -358,10 +358,15 @@ func (x *Exec) applyContract(st *State, fr *frame, con *Contract, name string, s
 	env.cur, env.old = st, st
 	x.nPre[name]++
 	for _, r := range con.Requires {
+		// instances of the ORM representation invariant inside a precondition are assumed facts
+		env.wfTrue = true
 		goal := env.term(r.Sx)
-		x.oblig(&Obligation{Name: fmt.Sprintf("pre@%s#%d.%s", shortName(name), x.nPre[name], r.Label), Kind: "pre", Label: r.Label,
-			Hyps: append([]string(nil), st.pc...), Goal: goal, Trace: strings.Join(st.trace, " "), Src: r.Src})
-		st.assume(goal)
+		env.wfTrue = false
+		if goal != "true" {
+			x.oblig(&Obligation{Name: fmt.Sprintf("pre@%s#%d.%s", shortName(name), x.nPre[name], r.Label), Kind: "pre", Label: r.Label,
+				Hyps: append([]string(nil), st.pc...), Goal: goal, Trace: strings.Join(st.trace, " "), Src: r.Src})
+		}
+		st.assume(env.term(r.Sx))
 	}
 	for _, pc := range con.Panics {
 		x.assumeOrPanic(st, fr, env.term(pc.Sx), "panic@"+shortName(name)+"."+pc.Label)
@@ -514,6 +519,13 @@ func (x *Exec) havocTarget(st *State, env *Env, m string) {
 		v, ok := env.vars[m[1:]]
 		if !ok {
 			panic(fmt.Errorf("%s: modifies %s: unknown parameter", env.where, m))
+		}
+		for {
+			iv, isI := v.(Iface)
+			if !isI || iv.Dyn == nil {
+				break
+			}
+			v = iv.V
 		}
 		p, ok := v.(Ptr)
 		if !ok {
